@@ -3,6 +3,7 @@ package rules
 import (
 	"fmt"
 	"go/token"
+	"go/types"
 
 	. "pandoravet/core"
 
@@ -149,6 +150,8 @@ func runC14(c *Ctx) {
 	c.Rule("O14.6", "a replayed entry yields the same request again: with preload the same decoded entries are delivered pass after pass, so BuildRequest of both entry types builds the request (and its body reader) anew from the entry's fields on every call - it does not hand out a request kept in the entry or a Clone of one (Clone shares the Body, which the first delivery has consumed)")
 	freshRequestRule(c, "O14.6", "Ammo")
 	freshRequestRule(c, "O14.6", "RawAmmo")
+	c.Rule("O14.8", "an empty selection is not an empty file: the streaming arm ends cleanly when chosencases leaves nothing to deliver (the decoder saw entries), so the preload arm may answer 'no ammo in file' (ErrNoAmmo) only for the list LoadAmmo returned - never on the emptiness of the list that is left after the chosencases filter")
+	c14EmptySelection(c)
 	P := c.P
 	loadAmmoUnbounded(P, c)
 	run := P.Func("components/providers/http/provider", "Provider", "Run")
@@ -428,4 +431,91 @@ func newLimitSentinels(P *Prog) *Sentinels {
 		return unbounded && fn == la && g == ammoLimit
 	}
 	return sa
+}
+
+// c14EmptySelection decides O14.8.
+func c14EmptySelection(c *Ctx) {
+	P := c.P
+	pre := P.Func("components/providers/http/provider", "Provider", "runPreloaded")
+	load := P.Func("components/providers/http/provider", "Provider", "loadAmmo")
+	run := P.Func("components/providers/http/provider", "Provider", "Run")
+	if pre == nil || load == nil || run == nil {
+		c.Anchor("O14.8", "http/provider.(*Provider).Run / loadAmmo / runPreloaded")
+		return
+	}
+	var noAmmo *ssa.Global
+	if dp := P.SSAPkg("components/providers/http/decoders"); dp != nil {
+		noAmmo, _ = dp.Members["ErrNoAmmo"].(*ssa.Global)
+	}
+	if noAmmo == nil {
+		c.Anchor("O14.8", "decoders.ErrNoAmmo")
+		return
+	}
+	// the field that keeps the entries that passed the filter: what loadAmmo appends to under IsChosenCase
+	filtered := map[*types.Var]bool{}
+	for _, g := range FindFuncs(load, 2, func(g *ssa.Function) bool { return PkgOf(g) == PkgOf(load) }) {
+		EachInstr(g, func(in ssa.Instruction) {
+			st, ok := in.(*ssa.Store)
+			if !ok {
+				return
+			}
+			fa, ok := st.Addr.(*ssa.FieldAddr)
+			if !ok {
+				return
+			}
+			fv, _ := FieldOf(fa)
+			if fv == nil {
+				return
+			}
+			if DerivesAny(st.Val, false, func(v ssa.Value) bool { cl, isC := v.(*ssa.Call); return isC && IsBuiltinCall(cl, "append") }) {
+				filtered[fv] = true
+			}
+		})
+	}
+	c.Floor("O14.8", "fields holding the filtered entries", len(filtered), 1)
+	n := 0
+	seen := map[*ssa.Function]bool{}
+	for _, root := range []*ssa.Function{run, pre, load} {
+		for _, g := range FindFuncs(root, 2, func(g *ssa.Function) bool { return PkgOf(g) == PkgOf(run) }) {
+			if seen[g] {
+				continue
+			}
+			seen[g] = true
+			for _, b := range g.Blocks {
+				r, ok := b.Instrs[len(b.Instrs)-1].(*ssa.Return)
+				if !ok || len(r.Results) == 0 {
+					continue
+				}
+				if !DerivesAny(r.Results[len(r.Results)-1], false, IsGlobalLoad(noAmmo)) {
+					continue
+				}
+				n++
+				onFiltered, onLoaded := false, false
+				for _, f := range CmpFactsAt(r) {
+					for _, side := range []ssa.Value{f.X, f.Y} {
+						DerivesAny(side, true, func(v ssa.Value) bool {
+							cl, isC := v.(*ssa.Call)
+							if !isC || !IsBuiltinCall(cl, "len") {
+								return false
+							}
+							arg := cl.Call.Args[0]
+							if fv, _ := FieldOf(arg); fv != nil && filtered[fv] {
+								onFiltered = true
+							}
+							if DerivesOnly(arg, false, func(x ssa.Value) bool {
+								lc, _ := CallOfValue(x)
+								return lc != nil && lc.Call.IsInvoke() && lc.Call.Method.Name() == "LoadAmmo"
+							}) {
+								onLoaded = true
+							}
+							return false
+						})
+					}
+				}
+				c.Check(!onFiltered, "O14.8", fk(g)+":no-ammo-only-for-an-empty-file", r.Pos(),
+					fmt.Sprintf("ErrNoAmmo is returned on the emptiness of the list left by the chosencases filter (test on the filtered list: %v, on LoadAmmo's result: %v): with a selection that matches nothing preload fails the run where streaming ends it cleanly", onFiltered, onLoaded))
+			}
+		}
+	}
+	c.Note("O14.8: %d ErrNoAmmo returns in the preload call tree", n)
 }
